@@ -6,6 +6,7 @@ import Depccg.Print.More
 import Depccg.Print.Html
 import Depccg.GlueTree
 import Depccg.GlueRun
+import Depccg.Read.Deriv
 
 namespace Depccg
 namespace OpsMore
@@ -15,6 +16,12 @@ partial def encJTree : JTree → String
   | .leaf fs => "L " ++ toString fs.length ++ String.join (fs.map fun (k, v) => " " ++ encStr k ++ " " ++ encStr v)
   | .node ty c kids => "N " ++ encStr ty ++ " " ++ encStr c ++ " " ++ toString kids.length ++
       String.join (kids.map fun k => " " ++ encJTree k)
+
+/-- the view the Lean `deriv` reader returns -/
+def encDView : Read.DView → String
+  | .leaf c w => "L " ++ encStr c ++ " " ++ encStr w
+  | .un c y k => "U " ++ encStr c ++ " " ++ encStr y ++ " " ++ encDView k
+  | .bin c y l r => "B " ++ encStr c ++ " " ++ encStr y ++ " " ++ encDView l ++ " " ++ encDView r
 
 def pScored : P (Tree × Str) := fun ts => do
   let (s, ts) ← pStr ts
@@ -68,6 +75,9 @@ def dispatch (op : String) (ts : List String) : Option String :=
       | _ => "bad-op")
   | "prolog_ja" => some (match OpsXml.pBatch ts with
       | some (b, []) => encExcept encStr (prologJa b)
+      | _ => "bad-op")
+  | "deriv_dec" => some (match pStr ts with
+      | some (s, []) => (match Read.decDeriv s with | some v => "ok " ++ encDView v | none => "none")
       | _ => "bad-op")
   | "tostring" => some (match ts with
       | name :: rest =>
